@@ -11,7 +11,7 @@ import Optyx.Py.Solve
 import Optyx.Generated.ScipyPost
 
 namespace Optyx.Props.SolveTie
-open Optyx Optyx.Py.Solve Optyx.Generated
+open Optyx Optyx.Py.Solve Optyx.Generated Optyx.Py.Post
 
 theorem absQ_eq (a : Rat) : absQ a = postAbs a := rfl
 theorem maxQ_eq (a b : Rat) : maxQ a b = postMax a b := rfl
